@@ -27,7 +27,7 @@ from spyne.server.wsgi import WsgiApplication
 
 from .pipeline import TNS
 from .c01_xml_fidelity import (PRIMS, PRIM_VALUES, outer_values, ARRAY_VALUES, Outer, Inner, Sub, Sub2, _services,
-                               _shared)
+                               _shared, renamed_values, Renamed, RenamedSub)
 
 
 @obligation('C02.msgpack.integer_split', targets=['spyne.protocol.msgpack:MessagePackDocument.integer_to_bytes',
@@ -124,10 +124,16 @@ def _mk_roundtrip(family, wrappers, as_list, validator):
         wsgi = WsgiApplication(app)
         cfg = dict(wrappers=wrappers, as_list=as_list, family=family)
         packb, unpackb, ctype = _codec(family)
-        meth = c.choose(['prims', 'struct', 'arrays', 'shared'], 'method')
+        meth = c.choose(['prims', 'struct', 'arrays', 'shared', 'produce', 'renamed'], 'method')
         d = app.interface.service_method_map['{%s}%s' % (TNS, meth)][0]
         if meth == 'shared':
             args = []
+        elif meth == 'produce':
+            args = [c.choose(list(range(len(PRIM_VALUES))), 'values')]
+        elif meth == 'renamed':
+            args = [RenamedSub(plain=3, alias='b', far=4, many=['p', 'q'], m1=5, m2='mm', own=6,
+                               nested=Renamed(plain=1, alias='a', far=2, many=['x'])) if as_list
+                    else renamed_values()[c.choose([0, 1, 2, 3], 'values')]]
         elif meth == 'prims':
             vals = PRIM_VALUES[c.choose(list(range(len(PRIM_VALUES))), 'values')]
             args = [vals[k] for k, _ in PRIMS]
@@ -186,6 +192,8 @@ def _mk_roundtrip(family, wrappers, as_list, validator):
         if meth == 'shared':
             o = _shared()
             rets = [o, [o.inner] * 3]
+        if meth == 'produce':
+            rets = [PRIM_VALUES[args[0]][k] for k, _ in PRIMS]
         for i, ((k, t), ret) in enumerate(zip(out_ti, rets)):
             if len(out_ti) == 1 and not wrappers:
                 piece = rdoc
@@ -195,7 +203,12 @@ def _mk_roundtrip(family, wrappers, as_list, validator):
                 piece = rdoc[i] if i < len(rdoc) else None
             else:
                 piece = None
-            decd = dictref.dec(t, piece, cfg)
+            try:
+                decd = dictref.dec(t, piece, cfg)
+            except Exception as e:
+                # the reference decoder cannot read what was sent: the response does not denote the value
+                c.check('response_denotes_returned_value', False, detail=(k, repr(e), repr(piece)[:200]))
+                continue
             c.check('response_denotes_returned_value', xmlref.norm(t, decd) == xmlref.norm(t, ret),
                     detail=(k, xmlref.norm(t, decd), xmlref.norm(t, ret), repr(rdoc)[:300]))
     return ob
@@ -214,3 +227,37 @@ from .c16_polymorphism import _mk_dict as _mk_polymorphic     # noqa: E402
 
 for _f in FAMS:
     _mk_polymorphic(_f, oid='C02.polymorphic.%s' % _f)
+
+
+@obligation('C02.sub_ns_and_sub_name', targets=['spyne.protocol.dictdoc.hier:HierDictDocument._doc_to_object',
+                                                 'spyne.protocol.dictdoc.hier:HierDictDocument._get_member_pairs'],
+            bounded="one member that declares both sub_name and sub_ns, JSON",
+            desc="a member that travels under another name is read back under the key it is written with")
+def sub_ns_and_sub_name(c):
+    from spyne.model.complex import ComplexModel as CM
+
+    class N(CM):
+        __namespace__ = TNS
+        far = Integer(sub_name='farName', sub_ns='verif.sub')
+    got = []
+
+    class NSvc(ServiceBase):
+        @rpc(N, _returns=N)
+        def g(ctx, n):
+            got.append(n.far)
+            return n
+    app = Application([NSvc], TNS, name='VApp', in_protocol=JsonDocument(), out_protocol=JsonDocument())
+    body = json.dumps({'g': {'n': {'farName': 4}}}).encode()
+    env = {'REQUEST_METHOD': 'POST', 'PATH_INFO': '/', 'QUERY_STRING': '', 'SERVER_NAME': 'h', 'SERVER_PORT': '80',
+           'wsgi.url_scheme': 'http', 'wsgi.input': io.BytesIO(body), 'CONTENT_TYPE': 'application/json', 'CONTENT_LENGTH': str(len(body))}
+
+    def sr(status, headers, exc_info=None):
+        pass
+    sr._pyvc_native = True
+    out = c.run(WsgiApplication(app), env, sr)
+    c.check('callable_returns', out.returned, detail=repr(out))
+    if out.returned:
+        c.run(lambda: list(out.value))
+    # open known finding: the serializer writes the key 'farName', the deserializer only knows '{verif.sub}farName'
+    c.known_region('C02-sub-ns-and-sub-name-key-asymmetry', True)
+    c.check('value_read_under_the_key_it_is_written_with', got == [4], detail=got)
